@@ -117,6 +117,15 @@ def run(res, tier, seed, driver_ok):
                     {'rel_err': rel(o.getData(), want)})
             if cls != 'eq1e-8' and rel(o.frame_applied.gTAA(), b) > 1e-8 and G.gt(np.max(np.abs(o.frame_applied.gTM() - TB)), 1e-8):
                 bad('frame-not-recorded:%s' % kind, 'object does not record its new frame', {'A': list(a), 'B': list(b)}, o.frame_applied.gTAA().reshape(-1).tolist())
+            # --- the two-argument form: the data are said to be in A (old_frame = A) whatever frame the object records — here it records B already
+            if cls not in ('eq1e-8', 'band'):
+                try:
+                    ox = mk(d, B); ox.changeFrame(B, A)
+                    if rel(ox.getData(), want) > tol:
+                        bad('change-explicit-old:%s:%s' % (kind, cls), 'changeFrame(new, old_frame) is not the adjoint action from the frame given to the new one', {'data': list(d), 'old': list(a), 'new': list(b)},
+                            {'rel_err': rel(ox.getData(), want)})
+                except Exception as e:
+                    bad('raises:changeFrame:%s' % type(e).__name__, 'changeFrame(new, old_frame) raised', {'data': list(d), 'old': list(a), 'new': list(b)}, repr(e))
             # --- A -> B -> A
             o2 = mk(d, A); o2.changeFrame(B); o2.changeFrame(A)
             if rel(o2.getData(), d) > tol:
